@@ -304,3 +304,137 @@ func opensslSweep(r *mon.Run, targets []Target, perTarget int, label string) {
 		}
 	})
 }
+
+// opensslResumption: histories of connections of one target over a shared client cache
+// against ONE s_server process (TLS 1.2 tickets / TLS 1.3 PSKs issued and checked by an
+// independent implementation).  Asserted: no follow-up connection fails (a wrong binder,
+// a ticket offered in a form the server must reject, a hello whose length changed when
+// the binder was inserted all make OpenSSL abort); counted: how many resumed.
+func opensslResumption(r *mon.Run, targets []Target, mustResume func(tg Target, tls13 bool) bool) {
+	if !peer.OpenSSLAvailable() {
+		r.Count("openssl_available", 0)
+		return
+	}
+	r.Count("openssl_available", 1)
+	r.Note("independent peer for resumption: " + strings.TrimSpace(peer.OpenSSLVersion()))
+	defer peer.OpenSSLCleanup()
+	type job struct {
+		t     Target
+		tls13 bool
+	}
+	var jobs []job
+	for _, tg := range targets {
+		ch, err := tg.Probe("example.test")
+		if err != nil {
+			continue
+		}
+		o := OfferOf(ch, targetMinVersion(tg))
+		if has13x(o) && certOffered("rsa", o) {
+			jobs = append(jobs, job{tg, true})
+		}
+		if o.Has(tls.VersionTLS12) && len(o.Suites12) > 0 && certOffered("rsa", o) {
+			jobs = append(jobs, job{tg, false})
+		}
+	}
+	parallel(len(jobs), func(i int) {
+		j := jobs[i]
+		const nconn = 4
+		args := []string{"-naccept", fmt.Sprint(nconn)}
+		vers := "tls13"
+		if !j.tls13 {
+			args = append(args, "-tls1_2")
+			vers = "tls12"
+		} else {
+			args = append(args, "-tls1_3")
+		}
+		srv, err := peer.StartOpenSSL("rsa", args...)
+		if err != nil {
+			r.Count("openssl_start_failed", 1)
+			return
+		}
+		log := ""
+		defer func() { log = srv.Stop(); _ = log }()
+		cache := tls.NewLRUClientSessionCache(8)
+		sig := map[string]string{"peer": "openssl", "target": family(j.t.Name), "server": vers}
+		for k := 0; k < nconn; k++ {
+			tg := j.t
+			if k == 2 && tg.ID.Client != tls.HelloGolang.Client {
+				tg.InspectFirst = true
+			}
+			raw, err := net.DialTimeout("tcp", srv.Addr, 5*time.Second)
+			if err != nil {
+				r.Count("openssl_dial_failed", 1)
+				return
+			}
+			rc := &peer.RecConn{Conn: raw}
+			rc.SetDeadline(time.Now().Add(peer.IODeadline))
+			ccfg := peer.ClientConfig("example.test")
+			ccfg.OmitEmptyPsk = true
+			ccfg.ClientSessionCache = cache
+			ccfg.PreferSkipResumptionOnNilExtension = true
+			u := tls.UClient(rc, ccfg, tg.ClientID())
+			var herr error
+			var pn string
+			func() {
+				defer func() {
+					if x := recover(); x != nil {
+						pn = fmt.Sprint(x)
+					}
+				}()
+				if prep := tg.Prepare(); prep != nil {
+					if herr = prep(u); herr != nil {
+						return
+					}
+				}
+				herr = u.Handshake()
+			}()
+			c2s, s2c := rc.Snapshot()
+			rep := map[string]any{"target": j.t.Name, "server": vers, "connection": k, "client_err": fmt.Sprint(herr)}
+			if pn != "" {
+				sig["kind"] = "panic"
+				r.Violation(sig, fmt.Sprintf("%s connection %d vs openssl: %s", j.t.Name, k, pn), rep)
+				rc.Close()
+				return
+			}
+			if herr != nil {
+				if len(s2c) == 0 {
+					r.Count("openssl_no_response", 1)
+					rc.Close()
+					return
+				}
+				allowed, class := classifyFailure(&peer.HS{C2S: c2s, S2C: s2c})
+				if !allowed {
+					sig["kind"] = "connection_over_shared_cache_failed_with_independent_server"
+					sig["connection"] = fmt.Sprint(k)
+					sig["class"] = class
+					r.Violation(sig, fmt.Sprintf("%s vs openssl s_server (%s): connection %d over the shared cache failed (%s): %v", j.t.Name, vers, k, class, herr), rep)
+				}
+				rc.Close()
+				return
+			}
+			// one echo round trip: TLS 1.3 tickets arrive with / before it
+			msg := []byte("resume-probe\n")
+			u.Write(msg)
+			buf := make([]byte, 256)
+			got := 0
+			for got < len(msg) {
+				n, err := u.Read(buf)
+				got += n
+				if err != nil {
+					break
+				}
+			}
+			cs := u.ConnectionState()
+			u.Close()
+			rc.Close()
+			if k > 0 && cs.DidResume {
+				r.Count("openssl_resumed_"+vers, 1)
+			}
+			if k > 0 && !cs.DidResume && mustResume(j.t, j.tls13) {
+				r.Count("openssl_not_resumed_"+vers, 1)
+				r.Note(fmt.Sprintf("%s vs openssl %s: connection %d completed without resuming", j.t.Name, vers, k))
+			}
+			r.Case(fmt.Sprintf("openssl-resume|%s|%s|%d|%v", family(j.t.Name), vers, k, cs.DidResume), k > 0)
+		}
+	})
+}
